@@ -81,7 +81,7 @@ def r11_2(ck, F):
     trues = [bb for bb, i, s in b.assigns() if s["p"] == [0] and s["rv"]["r"] == "use" and const_value(b.expr(s["rv"]["o"])) == 1]
     ok = bool(trues)
     for bb in trues:
-        ce = [(switch_expr(b, s), switch_meaning(b, s, v)) for s, tb, v in controlling_edges(b, bb)]
+        ce = conds(b, bb)
         ok = ok and any(e[0] == "discr" and m == "Closed" for e, m in ce) and \
             any(mir.last_field(e) == "gracefully" and m is True for e, m in ce)
     ck.expect(ok, "SendError::is_closed", "true iff Closed{gracefully: true}", "is_closed is not tied to a graceful close", b.loc(0))
@@ -233,7 +233,7 @@ def r11_7(ck, F):
     pushes = [(x, bb) for x in fam for bb, t in x.calls("std::vec::Vec::push")]
     ok = bool(pushes)
     for x, bb in pushes:
-        ce = [(switch_expr(x, s), switch_meaning(x, s, v)) for s, tb, v in controlling_edges(x, bb)]
+        ce = conds(x, bb)
         ok = ok and any(e[0] == "discr" and m == "Some" for e, m in ce)
     ck.expect(ok, "Closed::new#none-is-closed", "a waker is registered only while the list is Some",
               "Closed::new registers a waker even when the hang-up was already processed", cb.loc(0))
